@@ -413,10 +413,10 @@ func init() {
 			i.ps.ufApps = append(i.ps.ufApps, ufApp{Name: nm, Args: ts, Res: r})
 			return i.mk(r, types.Uint64)
 		},
-		"math/rand.Uint64": func(i *interpreter, fr *frame, a []value) value { return i.freshInput("u64", types.Uint64) },
-		"math/rand.Uint32": func(i *interpreter, fr *frame, a []value) value { return i.freshInput("u32", types.Uint32) },
+		"math/rand.Uint64": func(i *interpreter, fr *frame, a []value) value { return i.freshEnv(types.Uint64) },
+		"math/rand.Uint32": func(i *interpreter, fr *frame, a []value) value { return i.freshEnv(types.Uint32) },
 		"math/rand.Int63":  func(i *interpreter, fr *frame, a []value) value {
-			v := i.freshInput("u64", types.Uint64)
+			v := i.freshEnv(types.Uint64)
 			if s, ok := v.(*Sym); ok {
 				return i.mk(i.tb.BVBin(smt.OLShr, s.T, i.tb.BVConst(1, 64)), types.Int64)
 			}
@@ -656,4 +656,14 @@ outer:
 		h *= 1099511628211
 	}
 	return h
+}
+
+// freshEnv is an unconstrained environment value (randomness): not part of the
+// harness input vector, so native replays cannot pin it.
+func (i *interpreter) freshEnv(k types.BasicKind) value {
+	if i.concreteMode {
+		i.envCount++
+		return concreteOfKind(k, uint64(i.envCount)*0x9e3779b97f4a7c15&maskOf(k))
+	}
+	return i.mk(i.tb.Var("env", smt.BV(kindWidth(k))), k)
 }
